@@ -30,8 +30,27 @@ impl Cx {
 // small helpers
 
 /// `tokens.to_string()` with ALL whitespace removed.
+/// The tokens without any whitespace BETWEEN them; the text of a literal (a string with blanks in it, say) stays as it is.
 fn compact(ts: TokenStream) -> String {
-    ts.to_string().chars().filter(|c| !c.is_whitespace()).collect()
+    let mut out = String::new();
+    for tt in ts {
+        match tt {
+            TokenTree::Group(g) => {
+                let (open, close) = match g.delimiter() {
+                    Delimiter::Parenthesis => ("(", ")"),
+                    Delimiter::Brace => ("{", "}"),
+                    Delimiter::Bracket => ("[", "]"),
+                    Delimiter::None => ("", ""),
+                };
+                out.push_str(open);
+                out.push_str(&compact(g.stream()));
+                out.push_str(close);
+            }
+            TokenTree::Literal(l) => out.push_str(&l.to_string()),
+            other => out.extend(other.to_string().chars().filter(|c| !c.is_whitespace())),
+        }
+    }
+    out
 }
 
 fn cs<T: ToTokens>(t: &T) -> String {
